@@ -52,8 +52,16 @@ class ReadStream(Stream):
         n = len(d["idx"])
         S = np.array([j2m(M) for M in d["S"]], complex).reshape(len(d["S"]), n, n)
         pin_dic = {Pin(pname(k)): d["idx"][k] for k in range(n)}
-        params = {"wl": np.linspace(1.0, 2.0, len(d["S"]))}
+        # one swept parameter and one length-1 parameter (broadcast along the sweep in every table)
+        params = {"wl": np.linspace(1.0, 2.0, len(d["S"])), "Tmp": np.array([0.375])}
         return lk.SolvedModel(pin_dic=pin_dic, param_dic=params, Smatrix=S)
+
+    @staticmethod
+    def _param_columns_ok(tab, ns):
+        """row k of a sweep table carries the k-th value of every parameter (length-1 parameters repeated)"""
+        wl = np.linspace(1.0, 2.0, ns)
+        return (len(tab) == ns and np.array_equal(np.asarray(tab["wl"], float), wl)
+                and np.array_equal(np.asarray(tab["Tmp"], float), np.full(ns, 0.375)))
 
     def run(self, d):
         n = len(d["idx"])
@@ -77,9 +85,11 @@ class ReadStream(Stream):
             fd = mod.get_full_data()
             PP, QQ = (P if isinstance(P, Pin) else Pin(P)), (Q if isinstance(Q, Pin) else Pin(Q))
             rev = mod.get_data(Q, P)
+            ns = len(d["S"])
             out["fulldata_ok"] = bool(
                 np.array_equal(np.asarray(fd[(PP, QQ)]), dt["Amplitude"].to_numpy())
-                and np.array_equal(np.asarray(fd[(QQ, PP)]), rev["Amplitude"].to_numpy()))
+                and np.array_equal(np.asarray(fd[(QQ, PP)]), rev["Amplitude"].to_numpy())
+                and all(self._param_columns_ok(t, ns) for t in (fo, dt, fd, rev)))
             return out
 
         def lit(r):
